@@ -359,6 +359,12 @@ Definition chk (c : heap * list value * list (fn * nat * bool * option obs_t)) :
         chk.violation('oracle', 'nnx.%s and the eager call differ after a function that edits the metadata of a Variable (%s), call %d: returned value, the Variable\'s value / metadata, or '
                       'the caller\'s object is not the one carrying the change' % (c['kind'], c['edits'], i + 1), {'case': c, 'observed': r})
         break
+  for r in common.run_impl('impl_c04.py', {'long_list': True}, timeout=900)['long_list']:
+    chk.count({'long_list': r['form']}, True)
+    if 'err' in r and r['form'] == 'jit_sharded':
+      continue      # StateSharding needs a mesh on some jax versions: only a wrong result counts
+    if 'err' in r or not r['same']:
+      chk.violation('oracle', 'nnx.%s on a module holding a list of 12 Variables and a dict keyed \'0\'..\'11\' differs from the eager call (values end up in other list / dict entries)' % r['form'], r)
   for r in common.run_impl('impl_c04.py', {'loop_structure': True}, timeout=900)['loop_structure']:
     chk.count({'loop_structure': {k: r[k] for k in ('edit', 'form', 'k')}}, True)
     if 'refused' not in r['got'] and r['got'] != r['eager']:
